@@ -43,7 +43,7 @@ try:
     m = re.search(r"cp\s+\S*?([\w.-]+_test\.go)\s+(\S+)", demo)
     run = re.search(r"-run[= ]+'?\"?([^\s'\"]+)", demo)
     if demos and m and run:
-        dst = m.group(2).lstrip("./")
+        dst = m.group(2).rstrip(";,)").lstrip("./")
         if dst.endswith("/") or os.path.isdir(os.path.join(wt, dst)):
             dst = os.path.join(dst, "zz_seed_demo_test.go")
         pkg = "./" + os.path.dirname(dst) if os.path.dirname(dst) else "."
